@@ -74,7 +74,7 @@ package graphsync
 //@   ensures [only] only(requestIDToChannelIDMap.load, EventsHandler.OnDataReceived, IncomingBlockHookActions.TerminateWithError, IncomingBlockHookActions.PauseRequest)
 //@   ensures [pause] calls(IncomingBlockHookActions.PauseRequest) == 1 <==> calls(EventsHandler.OnDataReceived) == 1 && ret(EventsHandler.OnDataReceived, 0) == datatransfer.ErrPause
 
-//@ func (*graphsync.Transport).gsBlockSentHook {C16,C07}
+//@ func (*graphsync.Transport).gsBlockSentHook {C16,C07,C01}
 //@   acquires {C20} channels.blockIndexCache.lk, channels.progressCache.lk, graphsync.requestIDToChannelIDMap.lk, tracing.SpansIndex.spansLk
 //@   requires request != nil && block != nil && t.events != nil
 //@   ensures [wire-filter] block.BlockSizeOnWire() == 0 ==> untouched && never(requestIDToChannelIDMap.load)
@@ -83,7 +83,7 @@ package graphsync
 //@       $3 == block.BlockSize() && $4 == block.Index() && $5) && all(requestIDToChannelIDMap.load, $1 == request.ID())
 //@   ensures [only] only(requestIDToChannelIDMap.load, EventsHandler.OnDataSent)
 
-//@ func (*graphsync.Transport).gsOutgoingBlockHook {C16,C07,C08}
+//@ func (*graphsync.Transport).gsOutgoingBlockHook {C16,C07,C08,C01}
 //@   ensures [refusal-terminates] {C16,C04} calls(EventsHandler.OnDataQueued) == 1 && ret(EventsHandler.OnDataQueued, 1) != nil && ret(EventsHandler.OnDataQueued, 1) != datatransfer.ErrPause ==>
 //@       calls(OutgoingBlockHookActions.TerminateWithError) == 1 && all(OutgoingBlockHookActions.TerminateWithError, $1 == ret(EventsHandler.OnDataQueued, 1)) && never(OutgoingBlockHookActions.PauseResponse) &&
 //@       never(OutgoingBlockHookActions.SendExtensionData)
@@ -369,7 +369,7 @@ package graphsync
 //@   acquires {C20} channels.progressCache.lk, graphsync.Transport.dtChannelsLk, graphsync.dtChannel.lk, graphsync.dtChannel.optionsLk, graphsync.requestIDToChannelIDMap.lk, registry.Registry.registryLk, transportoptions.TransportOptions.optionsLk
 //@   requires request != nil && hookActions != nil && t.events != nil
 //@   loop 0 invariant [extensions] $i >= 0
-//@ func (*graphsync.Transport).OpenChannel {C16,C20}
+//@ func (*graphsync.Transport).OpenChannel {C16,C20,C10}
 //@   ensures [handler-required] {C16} t.events == nil ==> result == datatransfer.ErrHandlerNotSet && untouched
 //@   ensures [tracks-then-opens] {C16,C10} all(Transport.trackDTChannel, $1 == channelID) && all(dtChannel.open, $0 == ret(Transport.trackDTChannel, 0) && $2 == channelID && $3 == dataSender && $4 == root && $5 == stor && $6 == channel) &&
 //@       calls(dtChannel.open) <= 1 && before(Transport.trackDTChannel, dtChannel.open)
